@@ -6,11 +6,22 @@ const contractSrc = `
 access(all) contract C {
     access(all) struct interface SI { access(all) let x: Int }
     access(all) resource interface RI { access(all) let x: Int }
-    access(all) struct S { access(all) let x: Int; init(_ x: Int) { self.x = x } }
+    access(all) let bigPad: String
+    access(all) struct S { access(all) let x: Int; access(all) let pad: String; init(_ x: Int) { self.x = x; self.pad = x % 4 == 3 ? C.bigPad : "" } }
     access(all) struct S2: SI { access(all) let x: Int; init(_ x: Int) { self.x = x } }
-    access(all) resource R { access(all) let x: Int; init(_ x: Int) { self.x = x } }
+    access(all) resource R { access(all) let x: Int; access(all) let pad: String; init(_ x: Int) { self.x = x; self.pad = x % 4 == 3 ? C.bigPad : "" } }
     access(all) resource R2: RI { access(all) let x: Int; init(_ x: Int) { self.x = x } }
     access(all) fun boom() { panic("boom") }
+    access(all) fun mkArr(_ v: Int, _ n: Int): [Int] {
+        let a: [Int] = []
+        while a.length < n { a.append(v) }
+        return a
+    }
+    init() {
+        var p = "xxxxxxxxxx"
+        while p.length < 1000 { p = p.concat(p) }
+        self.bigPad = p
+    }
     access(all) fun newR(_ x: Int): @R { return <- create R(x) }
     access(all) fun newR2(_ x: Int): @R2 { return <- create R2(x) }
 
